@@ -278,9 +278,62 @@ def run_case(case, ctx):
         ctx.sample({"definitions": text, "stub_lines": len(stub.splitlines())}, "kw" if case["keywords"] else "std")
 
 
+def base_cases():
+    yield {"base_names": True, "compiled": False}
+    yield {"base_names": True, "compiled": True}
+
+
+def _run_base_names(case, ctx):
+    """Every name of the built-in typedef table as a field type and as a typedef target, plus a custom type: each hint
+    denotes the very type object the field has."""
+    m = import_repo()
+    from dissect.cstruct.tools import stubgen
+    from dissect.cstruct.types import BaseType
+
+    class MyType(BaseType):
+        @classmethod
+        def _read(cls, stream, context=None):
+            return cls(stream.read(4))
+
+        @classmethod
+        def _write(cls, stream, data):
+            return stream.write(bytes(4))
+
+    cs = m.cstruct()
+    cs.add_custom_type("my_t", MyType, 4, 4)
+    names = [n for n in m.cstruct().typedefs]
+    fields = "".join(f"    {n} f{i};\n" for i, n in enumerate(names))
+    text = f"struct ALL {{\n{fields}    my_t custom; my_t carr[2]; my_t *cptr;\n}};\n" + "".join(f"typedef {n} A{i};\n" for i, n in enumerate(names)) + "typedef my_t other_t;\n"
+    r = lib(cs.load, text, compiled=case["compiled"])
+    if isinstance(r, Err):
+        raise Violation("definition-rejected", f"{r}", r.where)
+    stub = lib(stubgen.generate_cstruct_stub, cs)
+    if isinstance(stub, Err):
+        raise Violation("stubgen-raised", f"{stub}", stub.where)
+    declared = _judge(m, cs, stub, text)
+    node = declared.get("my_t")
+    if not isinstance(node, ast.ClassDef) or lib(getattr, cs, node.name) is not cs.my_t:
+        raise Violation("stub-mismatch", f"the custom type my_t is declared as {ast.unparse(node) if node is not None else None!r}\n{stub[:600]}")
+    ctx.count("base-names", len(names))
+    ctx.mark_nontrivial(case)
+    ctx.sample({"names": len(names), "compiled": case["compiled"]}, "base-names")
+
+
+_run_defs = run_case
+
+
+def run_case(case, ctx):  # noqa: F811 - dispatch on the case kind
+    if case.get("base_names"):
+        return _run_base_names(case, ctx)
+    return _run_defs(case, ctx)
+
+
 def stages(tier):
+    from pbt.drive import EnumStage
+
     q = tier == "quick"
     return [
+        EnumStage("base-names", base_cases, shards=2, scope="every name of the built-in typedef table as field type and typedef target, plus a custom type"),
         HypStage("stubs", lambda: stub_case(False), examples=400 if q else 4000, shards=6 if q else 12),
         HypStage("keyword-names", lambda: stub_case(True), examples=150 if q else 1000, shards=2 if q else 4),
     ]
